@@ -110,7 +110,8 @@ def gen_engine_case(rng: random.Random, kind: str) -> dict[str, Any]:
     from harness.cmd_engine import gen_method, gen_snippet
     failing = kind == "c11" and rng.random() < 0.35
     bad_args = kind in ("c11", "c10") and rng.random() < 0.3
-    pcode = gen_method(rng, failing=failing, engine_cmds=kind != "c11" or rng.random() < 0.3, bad_args=bad_args)
+    pcode = gen_method(rng, failing=failing, engine_cmds=kind != "c11" or rng.random() < 0.3, bad_args=bad_args,
+                       thresholds=kind == "c12")
     ticks = rng.choice([30, 40, 50])
     sched: dict[str, list] = {}
 
@@ -124,12 +125,16 @@ def gen_engine_case(rng: random.Random, kind: str) -> dict[str, Any]:
             at(rng.randrange(2, ticks - 8), ["cancel", ["item", rng.randrange(60)]])
         if rng.random() < 0.4:
             at(rng.randrange(4, ticks - 6), ["user", rng.choice(["Stop", "Restart"])])
+        else:
+            at(ticks - 5, ["user", "Stop"])      # every run ends: "finalized by then" is judged on every case
     elif kind == "c10":
         at(rng.randrange(3, ticks - 8), ["user", rng.choice(["Stop", "Stop", "Restart"])])
     else:  # c12: requests against every item of the run log, offered or not
         for _ in range(rng.randrange(1, 6)):
             sel = ["item", rng.randrange(60)] if rng.random() < 0.93 else ["id", "nope"]
             at(rng.randrange(2, ticks - 8), [rng.choice(["cancel", "force"]), sel])
+        if rng.random() < 0.5:
+            at(rng.randrange(3, ticks - 8), ["force", ["threshold", rng.randrange(8)]])
     return {"kind": "engine", "pcode": pcode, "ticks": ticks, "sched": sched, "failing": failing}
 
 
